@@ -93,10 +93,11 @@ theorem leakyTransform_packTable (tbl : List (Bytes × Int)) (c : Chunk) (cells 
               ftIdx := offsets 0 (cells.map (fun x => (scanFree tbl x).length))
               ftVals := (cells.map (scanFree tbl)).flatten
                           ++ List.replicate (c.cap - ((cells.map (scanFree tbl)).map List.length).sum) 0 } := by
-  obtain ⟨hr, s0, he, hcap⟩ := h
+  obtain ⟨hr, ⟨s0, he, hcap⟩, hcol⟩ := h
   have hlt := he.lt_inds
   have := leakyRows_spec tbl c cells 0 s0 (c.inds.length - 1) 0 c.cap [] [] [] he (by omega) rfl rfl rfl (by omega)
-  simpa [leakyTransform, hr, List.replicate_succ] using this
+  rw [leakyTransform, withCol_ok c _ _ _ hcol]
+  simpa [hr, List.replicate_succ] using this
 
 end Exetera.Transforms
 
